@@ -101,6 +101,38 @@ Fixpoint orun (s : sys) (st : ostate) (ops : list op) (impl : list obs) : sys * 
 Definition judge_all (n : nat) (cap : Z) (ops : list op) (impl : list obs) : ostate * bool :=
   let '(_, st, shape) := orun (init n cap) ostate0 ops impl in (st, shape).
 
+(** * Well-formed histories (the premise of the theorems in Queue/PWSProofs.v)
+
+    every [LPush]/[LPop] names a handle created by an earlier [NewHandle] (one that happened with
+    [n > 0]), and the pushed item ids are pairwise distinct (so that "never twice" means what it
+    says). Read-only calls on unknown handles, any number of [NewHandle]s (handles may share a
+    ring) and any [cap] are fine. *)
+
+Definition pushed_raw (o : op) : list item :=
+  match o with GPush x => [x] | LPush _ x => [x] | _ => [] end.
+
+Definition op_wf (nh : nat) (seen : list item) (o : op) : bool :=
+  match o with
+  | GPush x => negb (OWSOracle.mem x seen)
+  | LPush h x => Nat.ltb h nh && negb (OWSOracle.mem x seen)
+  | LPop h _ => Nat.ltb h nh
+  | _ => true
+  end.
+
+Definition nh_next (n nh : nat) (o : op) : nat :=
+  match o with
+  | NewHandle => match n with O => nh | S _ => S nh end
+  | _ => nh
+  end.
+
+Fixpoint wf_ops (n nh : nat) (seen : list item) (ops : list op) : bool :=
+  match ops with
+  | [] => true
+  | o :: ops' => op_wf nh seen o && wf_ops n (nh_next n nh o) (pushed_raw o ++ seen) ops'
+  end.
+
+Definition wf_hist (n : nat) (cap : Z) (ops : list op) : bool := wf_ops n 0 [] ops.
+
 (** * Model branch coverage of a history (statistics only) *)
 Definition tag_overflow := 0%nat. Definition tag_steal := 1%nat. Definition tag_tick := 2%nat.
 Definition tag_idle := 3%nat. Definition tag_sharedpop := 5%nat. Definition tag_steal_many := 6%nat.
